@@ -1,5 +1,6 @@
 """U8 — RateLimiter::enqueue step contract (C13): Kani on the unmodified function text, bit-precise f32."""
 import os
+import re
 import sys
 
 HERE = os.path.dirname(os.path.abspath(__file__))
@@ -9,8 +10,8 @@ import kanilib  # noqa: E402
 
 NAME = "U8"
 SRC = "passage-protocol/src/rate_limiter.rs"
-HARNESSES = ["step_exact", "idle_readmitted", "fresh_key", "other_keys_and_cleanup"]
-KNOWN_BAD = ["step_exact_big_limit"]
+HARNESSES = ["step_exact", "idle_readmitted", "fresh_key", "other_keys_and_cleanup", "step_exact_big_limit"]
+KNOWN_BAD = []
 
 
 def build_kani():
@@ -28,6 +29,11 @@ def build_kani():
     text += ex["rate_limiter.RateLimiter"]["text"]
     it = ex.pop("rate_limiter.impl")
     text += f"// src={it['file']}:{it['line_start']}-{it['line_end']}\n" + it["text"] + "\n"
+    # the counter type of the bucket tuple `(Instant, C, C)`, read from the extracted struct
+    m = re.search(r"buckets\s*:\s*HashMap\s*<\s*T\s*,\s*\(\s*Instant\s*,\s*(\w+)\s*,\s*(\w+)\s*,?\s*\)\s*>", ex["rate_limiter.RateLimiter"]["text"])
+    if not m or m.group(1) != m.group(2) or m.group(1) not in ("f32", "f64", "u32", "u64", "usize"):
+        raise vxlib.OutOfReach("U8: the bucket of RateLimiter is not `(Instant, C, C)` with a numeric counter type C: the step harnesses do not apply")
+    text += f"type Cnt = {m.group(1)};\n"
     with open(os.path.join(HERE, "harness.rs")) as f:
         text += f.read()
     return kanilib.write_crate(NAME, text), ex
